@@ -366,6 +366,20 @@ class AttributeCollection(MutableMapping[int, Attribute]):
         if Attribute.CODE.AS_PATH in attributes and Attribute.CODE.AS4_PATH in attributes:
             attributes.merge_attributes()
 
+        # RFC 6793 4.2.3: AS4_AGGREGATOR holds the true aggregator when AGGREGATOR carries
+        # AS_TRANS and is ignored otherwise; both used to be reported under the same key
+        if Attribute.CODE.AS4_AGGREGATOR in attributes and Attribute.CODE.AGGREGATOR in attributes:
+            from exabgp.bgp.message.open.asn import AS_TRANS
+            from exabgp.bgp.message.update.attribute.aggregator import Aggregator
+
+            as4_aggregator = attributes[Attribute.CODE.AS4_AGGREGATOR]
+            aggregator = attributes[Attribute.CODE.AGGREGATOR]
+            if isinstance(aggregator, Aggregator) and isinstance(as4_aggregator, Aggregator):
+                attributes.remove(Attribute.CODE.AS4_AGGREGATOR)
+                if aggregator.asn == AS_TRANS:
+                    attributes.remove(Attribute.CODE.AGGREGATOR)
+                    attributes.add(Aggregator.make_aggregator(as4_aggregator.asn, as4_aggregator.speaker))
+
         if Attribute.CODE.MP_REACH_NLRI not in attributes and Attribute.CODE.MP_UNREACH_NLRI not in attributes:
             cls.previous = data
             cls.cached = attributes
